@@ -1,9 +1,12 @@
 (* C10 - model of the three persistent name->ID registries of istructsmem
    (internal/qnames, internal/containers, internal/singletons over internal/vers):
-   Prepare = load stored rows (only when the version row is set) -> collect the names of the
+   Prepare = load stored rows (whether the version row must be set for that is a translator flag:
+   not since the repair of F20) into the registry object -> collect the names of the
    current schema in enumeration order, giving each unknown name the first unused ID above the
    last one -> store all rows -> store the version row; qnames.Rename moves an ID to a new name
    and leaves a tombstone (ID 0).  One generic registry [rcfg] instantiated three times.
+   The registry objects and the version cache live as long as the process: a failed start is
+   retried on the same objects ([vol], [proc], ARetry).
    Names are byte strings; application names are assumed different from the few built-in
    system names (".", sys.Error, sys.CUD, sys.Corrupted, the empty container name).
    Definitions only. *)
@@ -18,12 +21,14 @@ Record rcfg := mkCfg {
   c_sys_last : N;      (* IDs <= c_sys_last are reserved: allocation starts above *)
   c_max : N;           (* allocated IDs are < c_max *)
   c_tomb : bool;       (* a stored ID 0 is a deleted name (skipped on load); 0 < ID <= c_sys_last refuses the load *)
-  c_needver : bool     (* rows are read only when the version row is set *)
+  c_needver : bool;    (* rows are read only when the version row is set *)
+  c_late : bool        (* the pending-changes counter is cleared by store() after a successful write
+                          (true, the code as pinned) / by Prepare before it calls store() (false) *)
 }.
 
-Definition cfg_q := mkCfg reg_qname_sys_last reg_qname_max true reg_qname_needs_version.
-Definition cfg_c := mkCfg reg_cont_sys_last reg_cont_max true reg_cont_needs_version.
-Definition cfg_s := mkCfg (reg_first_singleton - 1) reg_max_singleton false reg_single_needs_version.
+Definition cfg_q := mkCfg reg_qname_sys_last reg_qname_max true reg_qname_needs_version reg_qname_changes_cleared_by_store.
+Definition cfg_c := mkCfg reg_cont_sys_last reg_cont_max true reg_cont_needs_version reg_cont_changes_cleared_by_store.
+Definition cfg_s := mkCfg (reg_first_singleton - 1) reg_max_singleton false reg_single_needs_version reg_single_changes_cleared_by_store.
 
 Definition rows := list (bytes * N).        (* sorted by name: the partition of the system view *)
 Record pers := mkPers { p_rows : rows; p_ver : N }.   (* p_ver: 0 = no version row, 1 = ver01 *)
@@ -47,26 +52,29 @@ Definition add (m : mem) (n : bytes) (id : N) : mem :=
 
 Definition skip (c : rcfg) (id : N) : bool := c_tomb c && (id =? 0).
 
-(* load01: the read callback per stored row; None = the callback returned an error *)
-Fixpoint load_rows (c : rcfg) (rs : rows) (m : mem) : option mem :=
+(* load01: the read callback per stored row, applied to the registry object as it is (a fresh
+   one, or the one a failed start of the same process left behind); false = the callback
+   returned an error (the rows before it have been taken in) *)
+Fixpoint load_rows (c : rcfg) (rs : rows) (m : mem) : mem * bool :=
   match rs with
-  | [] => Some m
+  | [] => (m, true)
   | (n, id) :: r =>
       if skip c id then load_rows c r m
-      else if c_tomb c && (id <=? c_sys_last c) then None
+      else if c_tomb c && (id <=? c_sys_last c) then (m, false)
       else load_rows c r (add m n id)
   end.
 
-Inductive lres := LOk (m : mem) | LBadRow | LBadVer.
+(* the volatile state of one registry inside one process: the registry object (it survives a
+   failed Prepare and is prepared again by the in-process retry), its pending-changes counter
+   (as "> 0") and the version value cached by the vers.Versions object *)
+Record vol := mkVol { v_mem : mem; v_changed : bool; v_ver : N }.
+Definition vol0 (c : rcfg) : vol := mkVol (mem0 c) false 0.
 
-Definition reads_rows (c : rcfg) (p : pers) : bool :=
-  (p_ver p =? 1) || ((p_ver p =? 0) && negb (c_needver c)).
+(* vers.Prepare re-reads the stored version rows into the cache without clearing it: the cached
+   value survives where no row is stored (vers.Put caches before it writes) *)
+Definition merged_ver (p : pers) (v : vol) : N := if p_ver p =? 0 then v_ver v else p_ver p.
 
-Definition load (c : rcfg) (p : pers) : lres :=
-  if 1 <? p_ver p then LBadVer
-  else if reads_rows c p then
-    match load_rows c (p_rows p) (mem0 c) with Some m => LOk m | None => LBadRow end
-  else LOk (mem0 c).
+Definition reads (c : rcfg) (ver : N) : bool := (ver =? 1) || ((ver =? 0) && negb (c_needver c)).
 
 (* `for id := lastID+1; id < Max; id++ { if used(id) continue; ... }`; the fuel (one more than
    the number of used IDs) always suffices: at most that many candidates can be in use *)
@@ -91,8 +99,8 @@ Definition collect (c : rcfg) (s : cst) (n : bytes) : cst :=
       end
   end.
 
-Definition collect_all (c : rcfg) (m : mem) (names : list bytes) : cst :=
-  fold_left (collect c) names (mkCst m false false).
+Definition collect_all (c : rcfg) (m : mem) (changed : bool) (names : list bytes) : cst :=
+  fold_left (collect c) names (mkCst m changed false).
 
 (* which in-memory entries store() writes *)
 Definition keep (c : rcfg) (id : N) : bool := (c_sys_last c <? id) || skip c id.
@@ -106,16 +114,17 @@ Fixpoint put_all (c : rcfg) (es : rows) (rs : rows) : rows :=
 (* where an injected storage failure hits this registry *)
 Inductive rfault := RNoFault | RFailBatch | RFailVer.
 
-(* store: PutBatch of all entries, then the version row unless it is already the latest *)
-Definition store (c : rcfg) (p : pers) (m : mem) (f : rfault) : pers * bool :=
+(* store: PutBatch of all entries, then the version row unless the cached version is already the
+   latest; returns the new cached version and whether both writes went through *)
+Definition store (c : rcfg) (p : pers) (ver : N) (m : mem) (f : rfault) : pers * N * bool :=
   match f with
-  | RFailBatch => (p, false)
+  | RFailBatch => (p, ver, false)
   | _ =>
       let rs := put_all c (m_names m) (p_rows p) in
-      if p_ver p =? 1 then (mkPers rs 1, true)
+      if ver =? 1 then (mkPers rs (p_ver p), ver, true)
       else match f with
-           | RFailVer => (mkPers rs (p_ver p), false)
-           | _ => (mkPers rs 1, true)
+           | RFailVer => (mkPers rs (p_ver p), 1, false)
+           | _ => (mkPers rs 1, 1, true)
            end
   end.
 
@@ -123,50 +132,45 @@ Definition store (c : rcfg) (p : pers) (m : mem) (f : rfault) : pers * bool :=
    4 unknown view version, 5 rename refused *)
 Inductive rres := ROk (m : mem) | RErr (code : N).
 
-Definition prepare (c : rcfg) (p : pers) (names : list bytes) (f : rfault) : pers * rres :=
-  match load c p with
-  | LBadRow => (p, RErr 3)
-  | LBadVer => (p, RErr 4)
-  | LOk m0 =>
-      let s := collect_all c m0 names in
-      if cs_err s then (p, RErr 2)
+Definition prepare (c : rcfg) (p : pers) (v : vol) (names : list bytes) (f : rfault) : pers * vol * rres :=
+  let ver := merged_ver p v in
+  if 1 <? ver then (p, mkVol (v_mem v) (v_changed v) ver, RErr 4)
+  else
+    let '(m1, ok) := if reads c ver then load_rows c (p_rows p) (v_mem v) else (v_mem v, true) in
+    if negb ok then (p, mkVol m1 (v_changed v) ver, RErr 3)
+    else
+      let s := collect_all c m1 (v_changed v) names in
+      if cs_err s then (p, mkVol (cs_mem s) (cs_changed s) ver, RErr 2)
       else if cs_changed s then
-        let '(p', ok) := store c p (cs_mem s) f in
-        (p', if ok then ROk (cs_mem s) else RErr 1)
-      else (p, ROk (cs_mem s))
-  end.
+        let '(p', ver', ok) := store c p ver (cs_mem s) f in
+        (p', mkVol (cs_mem s) (if c_late c then negb ok else false) ver',
+         if ok then ROk (cs_mem s) else RErr 1)
+      else (p, mkVol (cs_mem s) false ver, ROk (cs_mem s)).
 
-(* qnames.Rename: Prepare without a schema (never stores), move the ID, tombstone the old name *)
+(* qnames.Rename: its own fresh Versions and QNames objects; Prepare without a schema (never
+   stores), move the ID, tombstone the old name *)
 Definition rename (c : rcfg) (p : pers) (old new : bytes) (f : rfault) : pers * N :=
   if lex_eqb old new then (p, 5)
-  else match load c p with
-       | LBadRow => (p, 3)
-       | LBadVer => (p, 4)
-       | LOk m =>
-           match sm_get old (m_names m), sm_get new (m_names m) with
-           | Some id, None =>
-               let m' := mkMem (sm_put new id (sm_put old 0 (m_names m))) ((id, new) :: (0, old) :: m_ids m) (m_last m) in
-               let '(p', ok) := store c p m' f in
-               (p', if ok then 0 else 1)
-           | _, _ => (p, 5)
-           end
-       end.
-
-(* one registry's share of a system action *)
-Inductive raction := RPrepare (names : list bytes) (f : rfault) | RRename (old new : bytes) (f : rfault) | RNop.
-
-Definition rstep (c : rcfg) (p : pers) (a : raction) : pers :=
-  match a with
-  | RPrepare names f => fst (prepare c p names f)
-  | RRename old new f => fst (rename c p old new f)
-  | RNop => p
-  end.
-
-Definition rrun (c : rcfg) (p : pers) (l : list raction) : pers := fold_left (rstep c) l p.
+  else if 1 <? p_ver p then (p, 4)
+  else
+    let '(m, ok) := if reads c (p_ver p) then load_rows c (p_rows p) (mem0 c) else (mem0 c, true) in
+    if negb ok then (p, 3)
+    else match sm_get old (m_names m), sm_get new (m_names m) with
+         | Some id, None =>
+             let m' := mkMem (sm_put new id (sm_put old 0 (m_names m))) ((id, new) :: (0, old) :: m_ids m) (m_last m) in
+             let '(p', _, ok) := store c p (p_ver p) m' f in
+             (p', if ok then 0 else 1)
+         | _, _ => (p, 5)
+         end.
 
 (* ---------- the application: three registries prepared in order on one storage ---------- *)
 
 Record sys := mkSys { s_q : pers; s_c : pers; s_s : pers }.
+
+(* the process: the AppConfigType with its three registry objects and the Versions cache; a new
+   process starts from fresh objects; pr_ready = the configuration is prepared (app running) *)
+Record proc := mkProc { pr_q : vol; pr_c : vol; pr_s : vol; pr_ready : bool }.
+Definition proc0 : proc := mkProc (vol0 cfg_q) (vol0 cfg_c) (vol0 cfg_s) false.
 
 (* registry index: 0 qnames, 1 containers, 2 singletons *)
 Inductive fault := NoFault | FailBatch (r : N) | FailVer (r : N).
@@ -179,61 +183,47 @@ Definition fault_for (f : fault) (r : N) : rfault :=
   end.
 
 Inductive action :=
-| AStart (qn cn sn : list bytes) (f : fault)
+| AStart (qn cn sn : list bytes) (f : fault)    (* a new process starts the application *)
+| ARetry (qn cn sn : list bytes) (f : fault)    (* the same process asks for the application again
+                                                   (IAppStructsProvider.BuiltIn on the same config) *)
 | ARename (old new : bytes) (f : fault).
 
 Inductive sout := SOk (mq mc ms : mem) | SErr (code : N).
 
-(* AppConfigType.prepare: versions, qnames, containers, singletons; the first error aborts the start *)
-Definition sys_step (s : sys) (a : action) : sys * sout :=
-  match a with
-  | AStart qn cn sn f =>
-      let '(q', rq) := prepare cfg_q (s_q s) qn (fault_for f 0) in
-      match rq with
-      | RErr e => (mkSys q' (s_c s) (s_s s), SErr e)
-      | ROk mq =>
-          let '(c', rc) := prepare cfg_c (s_c s) cn (fault_for f 1) in
-          match rc with
-          | RErr e => (mkSys q' c' (s_s s), SErr e)
-          | ROk mc =>
-              let '(s', rs) := prepare cfg_s (s_s s) sn (fault_for f 2) in
-              match rs with
-              | RErr e => (mkSys q' c' s', SErr e)
-              | ROk ms => (mkSys q' c' s', SOk mq mc ms)
-              end
+Definition state := (sys * proc)%type.
+
+(* AppConfigType.prepare: versions, qnames, containers, singletons; the first error aborts the
+   start and leaves the objects as they are *)
+Definition run_start (s : sys) (pr : proc) (qn cn sn : list bytes) (f : fault) : state * sout :=
+  let '(q', vq, rq) := prepare cfg_q (s_q s) (pr_q pr) qn (fault_for f 0) in
+  match rq with
+  | RErr e => ((mkSys q' (s_c s) (s_s s), mkProc vq (pr_c pr) (pr_s pr) false), SErr e)
+  | ROk mq =>
+      let '(c', vc, rc) := prepare cfg_c (s_c s) (pr_c pr) cn (fault_for f 1) in
+      match rc with
+      | RErr e => ((mkSys q' c' (s_s s), mkProc vq vc (pr_s pr) false), SErr e)
+      | ROk mc =>
+          let '(s', vs, rs) := prepare cfg_s (s_s s) (pr_s pr) sn (fault_for f 2) in
+          match rs with
+          | RErr e => ((mkSys q' c' s', mkProc vq vc vs false), SErr e)
+          | ROk ms => ((mkSys q' c' s', mkProc vq vc vs true), SOk mq mc ms)
           end
       end
+  end.
+
+Definition sys_step (st : state) (a : action) : state * sout :=
+  let '(s, pr) := st in
+  match a with
+  | AStart qn cn sn f => run_start s proc0 qn cn sn f
+  | ARetry qn cn sn f =>
+      if pr_ready pr then (st, SOk (v_mem (pr_q pr)) (v_mem (pr_c pr)) (v_mem (pr_s pr)))
+      else run_start s pr qn cn sn f
   | ARename old new f =>
       let '(q', code) := rename cfg_q (s_q s) old new (fault_for f 0) in
-      (mkSys q' (s_c s) (s_s s), if code =? 0 then SOk (mem0 cfg_q) (mem0 cfg_c) (mem0 cfg_s) else SErr code)
+      ((mkSys q' (s_c s) (s_s s), pr), if code =? 0 then SOk (mem0 cfg_q) (mem0 cfg_c) (mem0 cfg_s) else SErr code)
   end.
 
-Definition sys_run (s : sys) (l : list action) : sys := fold_left (fun s a => fst (sys_step s a)) l s.
-
-(* the per-registry actions a system action amounts to in state s *)
-Definition act_q (s : sys) (a : action) : raction :=
-  match a with
-  | AStart qn _ _ f => RPrepare qn (fault_for f 0)
-  | ARename old new f => RRename old new (fault_for f 0)
-  end.
-Definition act_c (s : sys) (a : action) : raction :=
-  match a with
-  | AStart qn cn _ f =>
-      match snd (prepare cfg_q (s_q s) qn (fault_for f 0)) with
-      | ROk _ => RPrepare cn (fault_for f 1)
-      | RErr _ => RNop
-      end
-  | ARename _ _ _ => RNop
-  end.
-Definition act_s (s : sys) (a : action) : raction :=
-  match a with
-  | AStart qn cn sn f =>
-      match snd (prepare cfg_q (s_q s) qn (fault_for f 0)), snd (prepare cfg_c (s_c s) cn (fault_for f 1)) with
-      | ROk _, ROk _ => RPrepare sn (fault_for f 2)
-      | _, _ => RNop
-      end
-  | ARename _ _ _ => RNop
-  end.
+Definition sys_run (st : state) (l : list action) : state := fold_left (fun st a => fst (sys_step st a)) l st.
 
 (* decoding a stored row: QNameID -> name through the ID->name map, then the type must exist *)
 Definition decode (mq : mem) (qn : list bytes) (id : N) : option bytes :=
@@ -252,7 +242,7 @@ Inductive dres := DName (n : bytes) | DErr | DAbsent.
 Inductive recop := RPut (key : N) (name : bytes) (ok : bool) | RGet (key : N) (r : dres).
 
 Inductive step :=
-| TStart (qn cn sn docs : list bytes) (f : fault) (code : N) (d : dump)
+| TStart (retry : bool) (qn cn sn docs : list bytes) (f : fault) (code : N) (d : dump)
          (qids sids : list (bytes * option N)) (recs : list recop)
 | TRename (old new : bytes) (f : fault) (code : N) (d : dump).
 
@@ -305,27 +295,27 @@ Fixpoint recs_agree (mq : mem) (qn docs : list bytes) (stored : list (N * N)) (o
 
 Definition code_of (o : sout) : N := match o with SOk _ _ _ => 0 | SErr e => e end.
 
-Fixpoint agrees_from (s : sys) (stored : list (N * N)) (t : list step) : bool :=
+Fixpoint agrees_from (st : state) (stored : list (N * N)) (t : list step) : bool :=
   match t with
   | [] => true
-  | TStart qn cn sn docs f code d qids sids recs :: rest =>
-      let '(s', o) := sys_step s (AStart qn cn sn f) in
-      (code_of o =? code) && dump_agrees s' d &&
+  | TStart retry qn cn sn docs f code d qids sids recs :: rest =>
+      let '(st', o) := sys_step st (if retry then ARetry qn cn sn f else AStart qn cn sn f) in
+      (code_of o =? code) && dump_agrees (fst st') d &&
       match o with
       | SOk mq mc ms =>
           lookups_agree mq qids && lookups_agree ms sids &&
-          (let '(ok, stored') := recs_agree mq qn docs stored recs in ok && agrees_from s' stored' rest)
-      | SErr _ => agrees_from s' stored rest
+          (let '(ok, stored') := recs_agree mq qn docs stored recs in ok && agrees_from st' stored' rest)
+      | SErr _ => agrees_from st' stored rest
       end
   | TRename old new f code d :: rest =>
-      let '(s', o) := sys_step s (ARename old new f) in
-      (code_of o =? code) && dump_agrees s' d && agrees_from s' stored rest
+      let '(st', o) := sys_step st (ARename old new f) in
+      (code_of o =? code) && dump_agrees (fst st') d && agrees_from st' stored rest
   end.
 
-Definition agrees (t : trace) : bool := agrees_from (sys_of (t_init t)) [] (t_steps t).
+Definition agrees (t : trace) : bool := agrees_from (sys_of (t_init t), proc0) [] (t_steps t).
 
 (* ---------- the oracle: the property judged on the observed outputs only ----------
-   After every successful start:
+   After every successful start (of a new process or an in-process retry):
    - every name of the schema has an ID, outside the reserved range and below the limit;
    - no two names of the schema share an ID;
    - a name that had an ID at an earlier successful start still has that ID, unless it was
@@ -398,7 +388,7 @@ Record ost := mkOst { o_kq : list (bytes * N); o_kc : list (bytes * N); o_ks : l
 Fixpoint satisfies_from (o : ost) (t : list step) : bool :=
   match t with
   | [] => true
-  | TStart qn cn sn docs f code d qids sids recs :: rest =>
+  | TStart _ qn cn sn docs f code d qids sids recs :: rest =>
       if code =? 0 then
         let gq := fun n => lookup_o n qids in
         let gc := fun n => lookup n (d_c d) in
